@@ -32,8 +32,8 @@ ASSUMPTIONS = ['defining sum (1/N) sum_ij w_|i-j|(k) evaluated term by term in d
                'NFJC: only N=3 has an analytic reference; larger N are covered by the sum rules only']
 MINIMA = {'quick': {'omega.calculate:G': 100, 'omega.calculate:FJC': 100, 'omega.calculate:RING': 100, 'omega.calculate:DK': 50, 'omega.calculate:trivial': 50,
                     'k_independence_probe': 300, 'dk_invalid_params': 30},
-          'thorough': {'omega.calculate:G': 3000, 'omega.calculate:FJC': 3000, 'omega.calculate:RING': 3000, 'omega.calculate:DK': 1500, 'omega.calculate:trivial': 1000,
-                       'k_independence_probe': 8000, 'dk_invalid_params': 500}}
+          'thorough': {'omega.calculate:G': 700, 'omega.calculate:FJC': 700, 'omega.calculate:RING': 700, 'omega.calculate:DK': 400, 'omega.calculate:trivial': 300,
+                       'k_independence_probe': 400, 'dk_invalid_params': 100}}
 SHARDS = {'quick': 8, 'thorough': 16}
 TIME_BUDGET = {'quick': 45, 'thorough': 280}
 
@@ -151,7 +151,7 @@ NS = [2, 3, 5, 10, 100, 1000, 10000]
 
 def cases(ctx):
     rng = ctx.rng('c11')
-    n = ctx.budget(640, 24000)
+    n = ctx.budget(640, 8000)
     for it in range(n):
         m = MODELS[it % len(MODELS)]
         N = int(rng.choice(NS)) if rng.random() < 0.7 else int(rng.integers(2, 300))
